@@ -54,6 +54,7 @@ func ruleTERMFOLLOW(c *Ctx) {
 		return ""
 	}
 	found := map[string]token.Pos{}
+	var termBlk, ntBlk *ssa.BasicBlock
 	for _, b := range f.Blocks {
 		for _, ins := range b.Instrs {
 			call, ok := ins.(*ssa.Call)
@@ -76,8 +77,28 @@ func ruleTERMFOLLOW(c *Ctx) {
 			if isTerm && underUT {
 				if ph := phaseOf(b); ph != "" {
 					found[ph] = call.Pos()
+					if ph == "cross-rule" {
+						termBlk = b
+					}
+				}
+			} else if !isTerm {
+				if ph := phaseOf(b); ph == "cross-rule" && innermostLoop(loops, b) != nil {
+					ntBlk = b
 				}
 			}
+		}
+	}
+	// the terminal case belongs to the same backward walk over the rule's tail as the
+	// nonterminal case: a terminal followed only by nullable nonterminals inherits as well
+	if termBlk != nil && ntBlk != nil {
+		key := "lalr.compiler.buildLA:cross-rule-walk"
+		ln := innermostLoop(loops, ntBlk)
+		// the terminal branch ends in `break`, so it is not part of the natural loop; it belongs to
+		// the walk when the walk's header dominates it
+		if ln != nil && ln.Header.Dominates(termBlk) && ln.Header != termBlk {
+			c.Ok(rule, key, termBlk.Instrs[0].Pos(), "terminal and nonterminal symbols of a rule's tail are handled by the same backward walk (a terminal followed by nullable nonterminals inherits the outer follow set too)")
+		} else {
+			c.Bad(rule, key, termBlk.Instrs[0].Pos(), "the terminal case of the cross-rule phase is not part of the backward walk over the rule's tail: only a terminal that is literally the last symbol inherits the outer follow set, a terminal followed by nullable nonterminals does not")
 		}
 	}
 	for _, ph := range []string{"in-rule", "cross-rule"} {
